@@ -233,6 +233,10 @@ func c20Run(c c20Case, r *hx.Rec) error {
 		}
 		ms.ExpProd = [][]string{{"ALLOW", "*"}}
 		linkFile := filepath.Join(metaDir, hx.LinkFileName(name, k.KeyID))
+		if (c.Arg+i)%2 == 0 {
+			// an older, longer link of an earlier attempt is still lying there
+			_ = os.WriteFile(linkFile, []byte(`{"signed": {"_type": "link", "name": "old"}, "signatures": [], "old": "`+strings.Repeat("previous attempt ", 30000)+`"}`), 0o644)
+		}
 		var res cliResult
 		switch st.Mode {
 		case "run":
